@@ -238,3 +238,25 @@ def summarize_fn(f, path, arg_names=None, overrides=None, opaque=None):
     for s, rv in res:
         outs.append((tuple(sorted(set(norm_cond(c) for c in s.conds))), show(norm(it.resolve(s, rv))), s, rv))
     return outs, it
+
+
+def run_async_fn(f, path, arg_names, opaque=None, loop_bound=2):
+    """summarise an `async fn`: call it with symbolic arguments, then poll the returned coroutine to completion.
+    -> (list of (state, return value), interp)"""
+    b = f.bodies[path]
+    it = Interp(f, opaque=opaque, loop_bound=loop_bound)
+    st = State()
+    args = [symbolic_arg(f, it, st, b["locals"][i + 1]["ty"], arg_names[i] if i < len(arg_names) else "a%d" % i)
+            for i in range(b["arg_count"])]
+    res = it.run(path, args, st)
+    out = []
+    for s, rv in res:
+        while rv[0] == "box":
+            rv = rv[1]
+        if rv[0] != "coroutine" or rv[1] not in f.bodies:
+            raise Unsupported("%s does not return a coroutine" % path)
+        fid = it.new_frame(s)
+        s.frames[fid][1] = rv
+        s.frames[fid][2] = ("sym", "task_context")
+        out += it.run_body(f.bodies[rv[1]], s, fid, 0)
+    return out, it
